@@ -42,6 +42,8 @@ func main() {
 		code = scenarioStamp()
 	case "dialog":
 		code = scenarioDialog()
+	case "affinity":
+		code = scenarioAffinity()
 	case "pintime":
 		code = scenarioPinTime()
 	default:
